@@ -230,7 +230,62 @@ def c15(t):
     _cmp(t, "C15", "Walker.walk (static use)", lambda: anytree.Walker.walk(nodes[4], nodes[2]), lambda: anytree.Walker().walk(nodes[4], nodes[2]), norm)
 
 
-FUNCS = {"C05": c05, "C06": c06, "C07": c07, "C08": c08, "C09": c09, "C10": c10, "C11": c11, "C12": c12, "C13": c13, "C14": c14, "C15": c15}
+def _ctor(t, pid):
+    import anytree
+
+    def shape(root):
+        out = []
+
+        def go(nd, d):
+            out.append((d, type(nd).__name__, getattr(nd, "name", None), getattr(nd, "extra", None)))
+            for c in nd.children:
+                go(c, d + 1)
+        go(root, 0)
+        return out
+
+    def node_pos():
+        p, c1, c2 = anytree.Node("p"), anytree.Node("c1"), anytree.Node("c2")
+        anytree.Node("x", p, [c1, c2], extra=1)
+        return shape(p)
+
+    def node_kw():
+        p, c1, c2 = anytree.Node("p"), anytree.Node("c1"), anytree.Node("c2")
+        anytree.Node(name="x", parent=p, children=[c1, c2], extra=1)
+        return shape(p)
+
+    def any_pos():
+        p, c1 = anytree.AnyNode(name="p"), anytree.AnyNode(name="c1")
+        anytree.AnyNode(p, [c1], name="x", extra=2)
+        return shape(p)
+
+    def any_kw():
+        p, c1 = anytree.AnyNode(name="p"), anytree.AnyNode(name="c1")
+        anytree.AnyNode(parent=p, children=[c1], name="x", extra=2)
+        return shape(p)
+
+    def link_pos():
+        tgt, p, c1 = anytree.Node("t"), anytree.Node("p"), anytree.Node("c1")
+        ln = anytree.SymlinkNode(tgt, p, [c1], extra=3)
+        return shape(p), ln.target is tgt, tgt.extra
+
+    def link_kw():
+        tgt, p, c1 = anytree.Node("t"), anytree.Node("p"), anytree.Node("c1")
+        ln = anytree.SymlinkNode(target=tgt, parent=p, children=[c1], extra=3)
+        return shape(p), ln.target is tgt, tgt.extra
+    _cmp(t, pid, "Node(name, parent, children)", node_pos, node_kw)
+    _cmp(t, pid, "AnyNode(parent, children)", any_pos, any_kw)
+    _cmp(t, pid, "SymlinkNode(target, parent, children)", link_pos, link_kw)
+
+
+def c02(t):
+    _ctor(t, "C02")
+
+
+def c20(t):
+    _ctor(t, "C20")
+
+
+FUNCS = {"C02": c02, "C20": c20, "C05": c05, "C06": c06, "C07": c07, "C08": c08, "C09": c09, "C10": c10, "C11": c11, "C12": c12, "C13": c13, "C14": c14, "C15": c15}
 
 
 def job(pid):
